@@ -184,3 +184,148 @@ Proof.
   intros l x H. unfold scan.
   destruct (run_run'_stop _ _ _ _ st0_mant H) as [e He]. rewrite He. eauto.
 Qed.
+
+(* ------------------------------------------------------------------------- *)
+(* 2. Digit runs                                                              *)
+(* ------------------------------------------------------------------------- *)
+
+Definition dig (c : N) : Prop := is_digit c = true.
+
+Fixpoint after (s : st) (i : N) (ds : list N) : st :=
+  match ds with
+  | [] => s
+  | c :: r => after (dstep s i c) (i + 1) r
+  end.
+
+Lemma step'_digit : forall s i c,
+  is_digit c = true -> oeqb (comma_pos s) i = false -> step' s i c = Cont (dstep s i c).
+Proof.
+  intros s i c Hd Ho. unfold step'. unfold is_digit in Hd.
+  assert (E45 : (c =? 45) = false) by lia.
+  assert (E44 : (c =? 44) = false) by lia.
+  assert (E46 : (c =? 46) = false) by lia.
+  rewrite E45, E44, E46, andb_false_r. cbn [andb]. rewrite Ho.
+  unfold is_digit. rewrite Hd. reflexivity.
+Qed.
+
+Lemma run'_digits : forall ds s i r,
+  Forall dig ds ->
+  (forall q, comma_pos s = Some q -> i + N.of_nat (length ds) <= q) ->
+  run' s i (ds ++ r) = run' (after s i ds) (i + N.of_nat (length ds)) r.
+Proof.
+  induction ds as [|c ds IH]; intros s i r Hd Hq.
+  - cbn [app after length]. replace (i + N.of_nat 0) with i by lia. reflexivity.
+  - inversion Hd as [|? ? Hc Hds]; subst.
+    cbn [app run' after length].
+    rewrite step'_digit; [|exact Hc|].
+    + rewrite IH; [|exact Hds|].
+      * replace (i + 1 + N.of_nat (length ds)) with (i + N.of_nat (S (length ds))) by lia.
+        reflexivity.
+      * intros q Hq'. cbn [dstep comma_pos] in Hq'. specialize (Hq q Hq').
+        cbn [length] in Hq. lia.
+    + destruct (comma_pos s) as [q|] eqn:E; [|reflexivity].
+      specialize (Hq q eq_refl). cbn [length] in Hq. cbn [oeqb]. lia.
+Qed.
+
+Lemma after_comma_pos : forall ds s i, comma_pos (after s i ds) = comma_pos s.
+Proof. induction ds as [|c ds IH]; intros s i; [reflexivity|]. cbn [after]. rewrite IH. reflexivity. Qed.
+
+Lemma after_prefix_len : forall ds s i, prefix_len (after s i ds) = prefix_len s.
+Proof. induction ds as [|c ds IH]; intros s i; [reflexivity|]. cbn [after]. rewrite IH. reflexivity. Qed.
+
+Lemma after_sign : forall ds s i, sign (after s i ds) = sign s.
+Proof. induction ds as [|c ds IH]; intros s i; [reflexivity|]. cbn [after]. rewrite IH. reflexivity. Qed.
+
+Lemma after_has_digit : forall ds s i, has_digit (after s i ds) = has_digit s || nonempty ds.
+Proof.
+  induction ds as [|c ds IH]; intros s i.
+  - cbn [after nonempty]. rewrite orb_false_r. reflexivity.
+  - cbn [after nonempty]. rewrite IH. cbn [dstep has_digit orb]. rewrite orb_true_r. reflexivity.
+Qed.
+
+Lemma after_sc_none : forall ds s i, sc s = None -> sc (after s i ds) = None.
+Proof.
+  induction ds as [|c ds IH]; intros s i H; [exact H|].
+  cbn [after]. apply IH. cbn [dstep sc]. rewrite H. reflexivity.
+Qed.
+
+Lemma after_sc_some : forall ds s i n,
+  sc s = Some n -> sc (after s i ds) = Some (n + length ds)%nat.
+Proof.
+  induction ds as [|c ds IH]; intros s i n H.
+  - cbn [after length]. rewrite H. f_equal. lia.
+  - cbn [after length]. rewrite (IH _ _ (S n)).
+    + f_equal. lia.
+    + cbn [dstep sc]. rewrite H. reflexivity.
+Qed.
+
+Definition dv (a : N) (l : list N) : N := fold_left (fun a c => a * 10 + (c - 48)) l a.
+
+Lemma after_mantissa_dv : forall ds s i a,
+  mantissa s = Z.of_N a -> mantissa (after s i ds) = Z.of_N (dv a ds).
+Proof.
+  induction ds as [|c ds IH]; intros s i a H; [exact H|].
+  cbn [after]. unfold dv. cbn [fold_left]. apply IH. cbn [dstep mantissa]. rewrite H. lia.
+Qed.
+
+Lemma after_mantissa : forall ds s i pre,
+  mantissa s = Z.of_N (digits_val pre) ->
+  mantissa (after s i ds) = Z.of_N (digits_val (pre ++ ds)).
+Proof.
+  intros ds s i pre H. rewrite (after_mantissa_dv _ _ _ _ H).
+  unfold dv, digits_val. rewrite fold_left_app. reflexivity.
+Qed.
+
+Lemma after_format_keep : forall ds s i,
+  (sc s <> None \/ format s <> None) -> format (after s i ds) = format s.
+Proof.
+  induction ds as [|c ds IH]; intros s i H; [reflexivity|].
+  cbn [after]. rewrite IH.
+  - cbn [dstep format]. destruct (sc s) as [n|]; [reflexivity|].
+    destruct (format s) as [f|]; [reflexivity|]. destruct H as [H|H]; congruence.
+  - cbn [dstep format sc]. destruct (sc s) as [n|]; [left; discriminate|].
+    destruct (format s) as [f|]; [right; discriminate|]. destruct H as [H|H]; congruence.
+Qed.
+
+Lemma after_format_none : forall ds s i,
+  sc s = None -> format s = None ->
+  format (after s i ds) =
+  if nonempty ds && (3 + prefix_len s + 1 <=? i + N.of_nat (length ds)) then Some Plain else None.
+Proof.
+  induction ds as [|c ds IH]; intros s i Hs Hf.
+  - cbn [after nonempty andb]. exact Hf.
+  - cbn [after nonempty andb length].
+    destruct (3 + prefix_len s <=? i) eqn:E.
+    + rewrite after_format_keep.
+      * cbn [dstep format]. rewrite Hs, Hf, E.
+        assert (E' : (3 + prefix_len s + 1 <=? i + N.of_nat (S (length ds))) = true) by lia.
+        rewrite E'. reflexivity.
+      * right. cbn [dstep format]. rewrite Hs, Hf, E. discriminate.
+    + rewrite IH.
+      * cbn [dstep prefix_len]. destruct ds as [|c' ds'].
+        -- cbn [nonempty andb length].
+           assert (E' : (3 + prefix_len s + 1 <=? i + N.of_nat 1) = false) by lia.
+           rewrite E'. reflexivity.
+        -- cbn [nonempty andb].
+           replace (i + 1 + N.of_nat (length (c' :: ds'))) with
+             (i + N.of_nat (S (length (c' :: ds')))) by lia.
+           reflexivity.
+      * cbn [dstep sc]. rewrite Hs. reflexivity.
+      * cbn [dstep format]. rewrite Hs, Hf, E. reflexivity.
+Qed.
+
+Lemma span_digits_spec : forall l a b,
+  span_digits l = (a, b) ->
+  l = a ++ b /\ Forall dig a /\ (b = [] \/ exists c r, b = c :: r /\ is_digit c = false).
+Proof.
+  induction l as [|c r IH]; intros a b H.
+  - cbn in H. inversion H; subst. repeat split; auto.
+  - cbn [span_digits] in H. destruct (is_digit c) eqn:E.
+    + destruct (span_digits r) as [a' b'] eqn:E'. inversion H; subst.
+      destruct (IH _ _ eq_refl) as (H1 & H2 & H3).
+      repeat split.
+      * cbn [app]. f_equal. exact H1.
+      * constructor; assumption.
+      * exact H3.
+    + inversion H; subst. repeat split; auto. right. eauto.
+Qed.
